@@ -1,5 +1,279 @@
-"""stub"""
+"""C18 — each amplitude carries exactly its Bose-symmetrised permutations (DESIGN.md §4 C18)."""
+from __future__ import annotations
+
+import ast
+import re
+
+from ..core import guards
+from ..core import pyfacts as pf
+from ..core import sibling
+from ..core.match import call_arg, txt
 from ..core.source import AnchorMissing
-PROP="C18"
+from .common import ACHAIN, GOOFIT, MDECAY, ckey, enclosing, fn, returns, stmt_of, where
+
+PROP = "C18"
+FILES = [MDECAY, GOOFIT, ACHAIN]
+EXPLANATION = (
+    "C18.1 the permutation set is built as: candidate positions per flattened final-state particle by equality, the "
+    "product of ALL candidate lists, filtered for injectivity; C18.2 spin factors, line shapes and the declared count are "
+    "all taken from self.list_structure(final_states) with the parameter forwarded unchanged, and to_goofit hands the same "
+    "final states to the three parts; C18.3 invariant-mass names interpolate positions of the loop's own permutation with "
+    "the index pattern of the topology, the i-th vertex gets the i-th mass, and each vertex's line shape receives that "
+    "permutation; C18.4 exhaustiveness: every LS member is produced by ls_enum and handled by both make_lineshape, every "
+    "spin-factor table entry is an SF_4Body member and every key has one of the two formats spindetails can produce; C18.5 "
+    "the C++ and the Python generator agree method by method (identical logic methods; same control skeleton and data "
+    "holes for the text-producing ones, with a two-line table of allowed divergences).")
+NOT_DECIDED = ["that the constructed set equals the mathematical set of bijections for every multiplicity pattern (combinatorics is not executed): not applicable",
+               "GooFit's own semantics of spin factors and line shapes"]
+CH = ("GooFitChain", "GooFitPyChain")
+
+
 def run(ctx, ss):
-    raise AnchorMissing("rules not built yet")
+    for r, f in (("C18.1", c18_1), ("C18.2", c18_2), ("C18.3", c18_3), ("C18.4", c18_4), ("C18.5", c18_5)):
+        ctx.guard(r, f, ss)
+
+
+def c18_1(ctx, ss):
+    ff, flow = fn(ss, MDECAY, "ModelDecay.list_structure")
+    rets = returns(ff)
+    k = ckey(ff, None, "permutations")
+    if len(rets) != 1:
+        raise AnchorMissing("list_structure: expected one return")
+    v = flow.expand(rets[0].value)
+    ok_shape = isinstance(v, ast.ListComp) and len(v.generators) == 1
+    if not ok_shape:
+        ctx.violation("C18.1", k, where(ff, rets[0]), f"list_structure returns `{txt(v)[:100]}`: not a filtered product")
+        return
+    g = v.generators[0]
+    it = g.iter
+    ok_prod = isinstance(it, ast.Call) and txt(it.func) in ("product", "itertools.product") and len(it.args) == 1 and isinstance(it.args[0], ast.Starred)
+    (ctx.holds if ok_prod else ctx.violation)("C18.1", k + " :: product", where(ff, rets[0]),
+                                              "assignments = product(*candidate position lists)" if ok_prod else f"assignments come from `{txt(it)[:80]}`")
+    ifs = [txt(i).replace(" ", "") for i in g.ifs]
+    tgt = txt(g.target)
+    ok_inj = ifs in ([f"len(set(__elem__({txt(it)})))==len(__elem__({txt(it)}))".replace(" ", "")],)
+    (ctx.holds if ok_inj else ctx.violation)("C18.1", k + " :: injective", where(ff, rets[0]),
+                                             "only one-to-one assignments are kept (len(set(a)) == len(a))" if ok_inj
+                                             else f"the injectivity filter is {ifs}: assignments that use one position twice are emitted (or valid ones dropped)")
+    ok_elt = txt(v.elt) == f"__elem__({txt(it)})"
+    if not ok_elt:
+        ctx.violation("C18.1", k + " :: element", where(ff, rets[0]), f"each permutation is `{txt(v.elt)[:60]}`, not the product element itself")
+    if ok_prod:
+        cands = it.args[0].value
+        want = "[[__elem__(enumerate(final_states))[0] for i, v in enumerate(final_states) if __elem__(enumerate(final_states))[1] == __elem__(list(iter_flatten(self.structure)))] for name in list(iter_flatten(self.structure))]"
+        okc = txt(cands) == want
+        (ctx.holds if okc else ctx.violation)("C18.1", k + " :: candidates", where(ff, rets[0]),
+                                              "candidates of each flattened final-state particle = positions of equal particles in the event type, for every particle in order" if okc
+                                              else f"candidate positions are `{txt(cands)[:200]}`")
+    sf, sflow = fn(ss, MDECAY, "ModelDecay.structure")
+    r = returns(sf)
+    oks = sorted(txt(x.value) for x in r) == sorted(["[d.structure for d in self.daughters]", "self.particle"])
+    (ctx.holds if oks else ctx.violation)("C18.1", ckey(sf, None, "structure"), where(sf, sf.node),
+                                          "structure = nested list of the daughters' structures, leaves = particles" if oks else "ModelDecay.structure changed shape")
+
+
+def c18_2(ctx, ss):
+    for cls_ in CH:
+        for m in ("make_spinfactor", "make_linefactor"):
+            ff, flow = fn(ss, GOOFIT, f"{cls_}.{m}")
+            loops = [n for n in pf.walk_no_nested(ff.node) if isinstance(n, ast.For) and not enclosing(ff, n, (ast.For,))]
+            k = ckey(ff, None, "permutation-source")
+            ok = len(loops) == 1 and txt(flow.expand(loops[0].iter)) == "self.list_structure(final_states)"
+            (ctx.holds if ok else ctx.violation)("C18.2", k, where(ff, loops[0] if loops else ff.node),
+                                                 f"{cls_}.{m} loops over self.list_structure(final_states)" if ok
+                                                 else f"{cls_}.{m} loops over `{txt(flow.expand(loops[0].iter))[:80] if loops else None}`")
+            if loops:
+                ex = [x for x in ast.walk(loops[0]) if isinstance(x, (ast.Break, ast.Continue))]
+                if ex:
+                    ctx.violation("C18.2", k + " :: early-exit", where(ff, ex[0]), f"{cls_}.{m}: the permutation loop can end early / skip permutations")
+        ff, flow = fn(ss, GOOFIT, f"{cls_}.make_amplitude")
+        k = ckey(ff, None, "count")
+        nd = [d for d in flow.defs if d.kind == "assign" and d.value is not None and "list_structure" in txt(d.value)]
+        ok = len(nd) == 1 and txt(nd[0].value) == "len(self.list_structure(final_states))"
+        used = False
+        if ok:
+            for js in [x for x in pf.walk_no_nested(ff.node) if isinstance(x, ast.JoinedStr)]:
+                if any(isinstance(p, ast.FormattedValue) and txt(p.value) == nd[0].name for p in js.values):
+                    used = True
+        (ctx.holds if ok and used else ctx.violation)("C18.2", k, where(ff, ff.node),
+                                                     f"{cls_}.make_amplitude declares len(self.list_structure(final_states)) permutations" if ok and used
+                                                     else f"{cls_}.make_amplitude does not declare the number of permutations of the same list")
+        ff, flow = fn(ss, GOOFIT, f"{cls_}.to_goofit")
+        calls = {txt(c.func): c for c in pf.calls_in(ff.node)}
+        ok = all(f"self.{p}" in calls and len(calls[f"self.{p}"].args) == 1 and txt(calls[f"self.{p}"].args[0]) == "final_states"
+                 for p in ("make_spinfactor", "make_linefactor", "make_amplitude"))
+        order = [txt(c.func) for c in sorted(pf.calls_in(ff.node), key=lambda c: (c.lineno, c.col_offset)) if txt(c.func).startswith("self.make_")]
+        ok = ok and order == ["self.make_spinfactor", "self.make_linefactor", "self.make_amplitude"]
+        (ctx.holds if ok else ctx.violation)("C18.2", ckey(ff, None, "parts"), where(ff, ff.node),
+                                             f"{cls_}.to_goofit = spin factors, line factors, amplitude, all for the same final states" if ok
+                                             else f"{cls_}.to_goofit does not emit the three parts for the same final states in order ({order})")
+
+
+MASS_SPEC = {"FF_12_34": [(0, 1), (2, 3)], "other": [(0, 1, 2), (0, 1)]}
+
+
+def c18_3(ctx, ss):
+    for cls_ in CH:
+        ff, flow = fn(ss, GOOFIT, f"{cls_}.make_linefactor")
+        loops = [n for n in pf.walk_no_nested(ff.node) if isinstance(n, ast.For) and not enclosing(ff, n, (ast.For,))]
+        if len(loops) != 1 or not isinstance(loops[0].target, ast.Name):
+            raise AnchorMissing(f"{cls_}.make_linefactor: permutation loop not found")
+        lp = loops[0]
+        pv = lp.target.id
+        k = ckey(ff, None, "masses")
+        # mass definitions
+        got = {"FF_12_34": {}, "other": {}}
+        for d in [d for d in flow.defs if d.kind == "assign" and isinstance(d.value, ast.JoinedStr) and d.name.startswith("mass")]:
+            conds = [(txt(e), pol) for kind, e, pol in guards.path_conditions(lp, d.stmt) if kind == "if"]
+            branch = None
+            if conds == [("self.decay_structure == DecayStructure.FF_12_34", True)]:
+                branch = "FF_12_34"
+            elif conds == [("self.decay_structure == DecayStructure.FF_12_34", False)]:
+                branch = "other"
+            idxs = []
+            okf = True
+            for p in d.value.values:
+                if isinstance(p, ast.FormattedValue):
+                    e = p.value
+                    if isinstance(e, ast.BinOp) and isinstance(e.op, ast.Add) and isinstance(e.right, ast.Constant) and e.right.value == 1 \
+                            and isinstance(e.left, ast.Subscript) and isinstance(e.left.value, ast.Name) and e.left.value.id == pv and isinstance(e.left.slice, ast.Constant):
+                        idxs.append(e.left.slice.value)
+                    else:
+                        okf = False
+            consts = "".join(p.value for p in d.value.values if isinstance(p, ast.Constant))
+            if branch is None or not okf:
+                ctx.violation("C18.3", k + f" :: {d.name}", where(ff, d.stmt), f"{cls_}: `{txt(d.stmt)[:80]}` does not interpolate positions of the loop's own permutation (+1) under the topology test")
+            else:
+                got[branch][d.name] = (tuple(idxs), consts)
+        for branch, spec in MASS_SPEC.items():
+            names = sorted(got[branch])
+            seq = [got[branch][n][0] for n in names]
+            kk = k + f" :: {branch}"
+            if seq == spec:
+                ctx.holds("C18.3", kk, where(ff, lp), f"{cls_} [{branch}]: mass indices {seq}", len(seq))
+            else:
+                ctx.violation("C18.3", kk, where(ff, lp), f"{cls_} [{branch}]: invariant-mass indices are {seq}, expected {spec} (mass of the wrong particle pair / another permutation's positions)")
+        # pairing vertex i <-> mass i, and the permutation handed to make_lineshape
+        inner = [n for n in ast.walk(lp) if isinstance(n, ast.For) and n is not lp]
+        okp = False
+        if len(inner) == 1 and isinstance(inner[0].iter, ast.Call) and txt(inner[0].iter.func) == "enumerate" and txt(inner[0].iter.args[0]) == "self.vertexes" \
+                and isinstance(inner[0].target, ast.Tuple):
+            i_name, v_name = (e.id for e in inner[0].target.elts)
+            ml = [c for c in pf.calls_in(inner[0]) if isinstance(c.func, ast.Attribute) and c.func.attr == "make_lineshape"]
+            masses_def = [d for d in flow.defs if d.name == "masses" and d.kind == "assign"]
+            okm = len(masses_def) == 1 and txt(masses_def[0].value) == "[mass1, mass2]"
+            okp = len(ml) == 1 and txt(ml[0].func.value) == v_name and len(ml[0].args) == 2 and txt(ml[0].args[0]) == pv and txt(ml[0].args[1]) == f"masses[{i_name}]" and okm
+            apps = [c for c in pf.calls_in(inner[0]) if isinstance(c.func, ast.Attribute) and c.func.attr == "append"]
+            okp = okp and len(apps) == 1 and not any(isinstance(x, (ast.If, ast.Break, ast.Continue)) for x in ast.walk(inner[0]))
+        (ctx.holds if okp else ctx.violation)("C18.3", k + " :: pairing", where(ff, inner[0] if inner else lp),
+                                              f"{cls_}: the i-th vertex gets masses[i] and this permutation; one line shape per vertex" if okp
+                                              else f"{cls_}: vertexes and masses are not paired index by index with the loop's permutation (or a vertex can be skipped)")
+    # spin factors carry the loop's permutation
+    for cls_ in CH:
+        ff, flow = fn(ss, GOOFIT, f"{cls_}.make_spinfactor")
+        lp = [n for n in pf.walk_no_nested(ff.node) if isinstance(n, ast.For) and not enclosing(ff, n, (ast.For,))][0]
+        pv = lp.target.id
+        d = [d for d in flow.defs if d.kind == "assign" and d.value is not None and "join" in txt(d.value) and pv in txt(d.value)]
+        ok = len(d) == 1 and txt(d[0].value) == f"', '.join(map(str, {pv}))"
+        inner = [n for n in ast.walk(lp) if isinstance(n, ast.For) and n is not lp]
+        oki = len(inner) == 1 and txt(inner[0].iter) == "spin_factors" and txt(flow.expand(inner[0].iter)) == "self.spinfactors"
+        (ctx.holds if ok and oki else ctx.violation)("C18.3", ckey(ff, None, "spin-permutation"), where(ff, lp),
+                                                     f"{cls_}: every spin factor of the amplitude is emitted with the loop's permutation" if ok and oki
+                                                     else f"{cls_}: spin factors are not emitted once per (permutation, spin factor) with that permutation's indices")
+    vf, vflow = fn(ss, MDECAY, "ModelDecay.vertexes")
+    okv = sibling.skeleton(vf.node) == ["verts =", "for d in self.daughters", "  if d.is_vertex()", "    call verts.append", "    verts Add", "return"]
+    (ctx.holds if okv else ctx.violation)("C18.3", ckey(vf, None, "vertexes"), where(vf, vf.node), "vertexes = every two-body sub-decay, depth first" if okv else "ModelDecay.vertexes changed shape")
+
+
+def _enum_members(ss, short, name):
+    mf = pf.module_facts(ss, short)
+    cf = mf.classes.get(name)
+    if cf is None:
+        raise AnchorMissing(f"enum {name} not found")
+    return [k for k, v in cf.class_attrs.items() if isinstance(v, ast.Constant)]
+
+
+def c18_4(ctx, ss):
+    ls = _enum_members(ss, ACHAIN, "LS")
+    sf = _enum_members(ss, GOOFIT, "SF_4Body")
+    ctx.count("enum_members", len(ls) + len(sf))
+    ff, flow = fn(ss, ACHAIN, "AmplitudeChain.ls_enum")
+    produced = {txt(r.value).split(".")[-1] for r in returns(ff) if txt(r.value).startswith("LS.")}
+    for m in ls:
+        k = f"{ACHAIN}:LS.{m}"
+        (ctx.holds if m in produced else ctx.violation)("C18.4", k + " :: produced", where(ff, ff.node),
+                                                         f"LS.{m} is produced by ls_enum" if m in produced else f"LS.{m} is never produced by ls_enum")
+        for cls_ in CH:
+            mf_, mflow = fn(ss, GOOFIT, f"{cls_}.make_lineshape")
+            tests = [txt(n.test) for n in pf.walk_no_nested(mf_.node) if isinstance(n, ast.If)]
+            handled = f"self.ls_enum == LS.{m}" in tests
+            (ctx.holds if handled else ctx.violation)("C18.4", k + f" :: {cls_}", where(mf_, mf_.node),
+                                                       f"{cls_}.make_lineshape handles LS.{m}" if handled else f"{cls_}.make_lineshape has no branch for LS.{m}: such amplitudes cannot be emitted")
+    ctx.floor("C18.4", "LS members", len(ls), 4)
+    # spin-factor table
+    mf = pf.module_facts(ss, GOOFIT)
+    if "known_spinfactors" not in mf.globals_:
+        raise AnchorMissing("known_spinfactors not found")
+    tab = mf.globals_["known_spinfactors"]
+    if not isinstance(tab, ast.Dict):
+        raise AnchorMissing("known_spinfactors is not a dict literal")
+    f1 = re.compile(r"Dto[A-Za-z]1[A-Za-z]2_[A-Za-z]1toP1P2_[A-Za-z]2toP3P4(_[PDF])?")
+    f2 = re.compile(r"Dto[A-Za-z]1P1_[A-Za-z]1to[A-Za-z]2P2([PDF]wave)?_[A-Za-z]2toP3P4")
+    W = f"src/decaylanguage/{GOOFIT}"
+    for kx, vx in zip(tab.keys, tab.values):
+        key = kx.value if isinstance(kx, ast.Constant) else None
+        kk = f"{GOOFIT}:known_spinfactors[{key}]"
+        mem = [txt(e) for e in (vx.elts if isinstance(vx, (ast.Tuple, ast.List)) else [vx])]
+        bad = [m for m in mem if not (m.startswith("SF_4Body.") and m.split(".")[1] in sf)]
+        if bad:
+            ctx.violation("C18.4", kk + " :: members", f"{W}:{kx.lineno}", f"spin-factor table entry {key!r} refers to {bad[0]}, not a member of SF_4Body")
+        elif key is None or not (f1.fullmatch(key) or f2.fullmatch(key)):
+            ctx.violation("C18.4", kk + " :: key", f"{W}:{kx.lineno}", f"spin-factor table key {key!r} has neither of the two formats spindetails() can produce: the entry is dead")
+        else:
+            ctx.holds("C18.4", kk, f"{W}:{kx.lineno}", f"{key} → {mem}", len(mem) + 1)
+    ctx.floor("C18.4", "spin-factor table entries", len(tab.keys), 11)
+    # the two formats really are what spindetails returns
+    for cls_ in CH:
+        sd, sdflow = fn(ss, GOOFIT, f"{cls_}.spindetails")
+        rs = returns(sd)
+        tx = sorted(txt(r.value)[:40] for r in rs)
+        ok = len(rs) == 2 and any("'Dto{a}{b}_{a}toP1P2_{b}toP3P4'" in txt(r.value) for r in rs) and any("Dto{a}P1_{a}to{b}P2{wave}_{b}toP3P4" in txt(r.value) for r in rs)
+        (ctx.holds if ok else ctx.violation)("C18.4", ckey(sd, None, "formats"), where(sd, sd.node),
+                                             f"{cls_}.spindetails produces the two key formats" if ok else f"{cls_}.spindetails returns {tx}: keys of the spin-factor table can no longer be produced")
+
+
+LOGIC = ["decay_structure", "formfactor", "spindetails", "spinfactors"]
+TEXT = ["make_spinfactor", "make_linefactor", "make_lineshape", "make_amplitude", "to_goofit", "make_intro", "make_pars", "read_ampgen"]
+REN = {"GooFitPyChain": "<CLS>", "GooFitChain": "<CLS>"}
+ALLOWED_HOLES = {("{L}", "{L}"), }
+ALLOWED_SKEL = {("L =", "L ="), }
+
+
+def c18_5(ctx, ss, rule="C18.5", methods=None):
+    mf = pf.module_facts(ss, GOOFIT)
+    a, b = mf.classes.get(CH[0]), mf.classes.get(CH[1])
+    if a is None or b is None:
+        raise AnchorMissing("GooFitChain / GooFitPyChain not found")
+    for m in (methods or LOGIC + ["make_spinfactor", "make_linefactor", "make_lineshape", "to_goofit"]):
+        k = f"{GOOFIT}:{m} :: siblings"
+        if m not in a.methods or m not in b.methods:
+            ctx.violation(rule, k, f"src/decaylanguage/{GOOFIT}", f"`{m}` exists in only one of the two generators")
+            continue
+        fa, fb = a.methods[m], b.methods[m]
+        if m in LOGIC:
+            if sibling.identical(fa.node, fb.node, REN):
+                ctx.holds(rule, k, where(fb, fb.node), f"{m}: identical logic in both generators", 2)
+            else:
+                sa, sb = sibling.skeleton(fa.node, REN), sibling.skeleton(fb.node, REN)
+                d = sibling.diff(sa, sb) or sibling.diff(sibling.holes(fa.node, REN), sibling.holes(fb.node, REN)) or [("<literal/expression difference>", "")]
+                ctx.violation(rule, k, where(fb, fb.node), f"{m}: the C++ and the Python generator differ in logic: `{d[0][0][:70]}` vs `{d[0][1][:70]}`")
+            continue
+        sa, sb = sibling.skeleton(fa.node, REN), sibling.skeleton(fb.node, REN)
+        ha, hb = sibling.holes(fa.node, REN), sibling.holes(fb.node, REN)
+        ds = sibling.diff(sa, sb)
+        dh = [x for x in sibling.diff(ha, hb) if x not in ALLOWED_HOLES]
+        if not ds and not dh:
+            ctx.holds(rule, k, where(fb, fb.node), f"{m}: same control skeleton ({len(sa)} statements) and same {len(ha)} data holes", len(sa) + len(ha))
+        else:
+            d = (ds or dh)[0]
+            ctx.violation(rule, k, where(fb, fb.node), f"{m}: the two generators diverge: C++ `{d[0][:80]}` vs Python `{d[1][:80]}`")
